@@ -248,12 +248,22 @@ class RepoMaterial:
             v = cimgen.value(rng, t, False, null=0.1)
             va = cimgen.value(rng, t, True, null=0.1,
                               nulls=rng.random() < 0.3)
+            if t == 'datetime' and rng.random() < 0.3:
+                # python datetime/timedelta objects are accepted for datetime
+                import datetime as _dt
+                v = rng.choice([
+                    _dt.datetime(2020, 2, 29, 12, 30, 5, 250000),
+                    _dt.datetime(2001, 1, 1, tzinfo=pywbem.MinutesFromUTC(90)),
+                    _dt.timedelta(days=3, seconds=7, microseconds=9)])
+                va = [v, _dt.timedelta(seconds=61)]
             return self._shape('Echo_' + t, obj, t, v, va)
         if r < 0.8:
             ns = self.real_ns()
             pool = self.info['other'][ns]
             v = rng.choice(pool).copy() if pool else None
             va = [p.copy() for p in pool[:2]]
+            if va and rng.random() < 0.2:
+                va.insert(rng.randint(1, len(va)), None)   # NULL entry
             return self._shape('Echo_reference', obj, 'reference', v, va)
         if r < 0.9:
             v = CIMInstance('VF_Other', properties=[
